@@ -41,7 +41,11 @@ impl EntityKind {
 }
 impl EntityId {
     // re-declared with its real value (array repeat expression, see above)
-    pub exec const UNKNOWN: EntityId = EntityId { entity_key: [0x00; 3], entity_kind: EntityKind::UNKNOWN_USER_DEFINED };
+    pub exec const UNKNOWN: EntityId ensures forall|e: EntityId| eid_is(e, 0, 0, 0, 0) <==> e == EntityId::UNKNOWN {
+        let r = EntityId { entity_key: [0x00; 3], entity_kind: EntityKind::UNKNOWN_USER_DEFINED };
+        proof { assert forall|e: EntityId| eid_is(e, 0, 0, 0, 0) implies e == r by { assert(e.entity_key =~= r.entity_key); } }
+        r
+    }
 @@extract const src/structure/guid.rs EntityId::PARTICIPANT
 @@extract const src/structure/guid.rs EntityId::SEDP_BUILTIN_TOPIC_WRITER
 @@extract const src/structure/guid.rs EntityId::SEDP_BUILTIN_TOPIC_READER
